@@ -1,5 +1,6 @@
 // C14 / C20 contracts for src/sql/predicate.rs — value-level kernels of CompiledPredicate
 use super::*;
+use crate::verif_stubs as vs;
 use crate::sql::ast::{BinaryOperator as B, Expr, Literal, UnaryOperator as U};
 
 /// The kernels under contract (`compare_values`, `eval_binary_op`, `eval_unary_op`, `value_to_bool`,
@@ -65,6 +66,10 @@ fn any_cmp_op() -> B {
 /// all Int/Float/NULL operand pairs and all six operators — except the pair (NULL, NULL), which is the
 /// known finding F-C14-1; a missing operand (None) is never TRUE
 #[kani::proof]
+#[kani::stub(eyre::capture_handler, vs::capture_handler)]
+#[kani::stub(eyre::private::new_adhoc, vs::new_adhoc)]
+#[kani::stub(eyre::private::format_err, vs::format_err)]
+#[kani::stub(alloc::fmt::format, vs::format)]
 #[kani::unwind(2)]
 fn c14_compare_values_3vl() {
     let p = pred();
@@ -88,6 +93,10 @@ fn c14_compare_values_3vl() {
 //@ props=C14 kind=known finding=F-C14-1
 /// KNOWN FINDING F-C14-1: NULL = NULL, NULL <= NULL, NULL >= NULL must not be TRUE
 #[kani::proof]
+#[kani::stub(eyre::capture_handler, vs::capture_handler)]
+#[kani::stub(eyre::private::new_adhoc, vs::new_adhoc)]
+#[kani::stub(eyre::private::format_err, vs::format_err)]
+#[kani::stub(alloc::fmt::format, vs::format)]
 #[kani::unwind(2)]
 fn c14_known_null_eq_null() {
     let p = pred();
@@ -116,6 +125,10 @@ fn truth_of(v: &Option<Value>) -> T {
 /// value-level AND / OR / NOT on operands in {NULL, FALSE(0), TRUE(1)}: the result is TRUE exactly when
 /// the Kleene table says TRUE (what a filter needs); NOT maps TRUE<->FALSE and NULL to NULL
 #[kani::proof]
+#[kani::stub(eyre::capture_handler, vs::capture_handler)]
+#[kani::stub(eyre::private::new_adhoc, vs::new_adhoc)]
+#[kani::stub(eyre::private::format_err, vs::format_err)]
+#[kani::stub(alloc::fmt::format, vs::format)]
 #[kani::unwind(2)]
 fn c14_connectives_true_iff_kleene_true() {
     let p = pred();
@@ -134,6 +147,10 @@ fn c14_connectives_true_iff_kleene_true() {
 /// KNOWN FINDING F-C14-2: select-list values of AND/OR must be the Kleene value (NULL AND TRUE = NULL,
 /// NULL OR FALSE = NULL); the kernel returns 0 (FALSE) for every UNKNOWN result
 #[kani::proof]
+#[kani::stub(eyre::capture_handler, vs::capture_handler)]
+#[kani::stub(eyre::private::new_adhoc, vs::new_adhoc)]
+#[kani::stub(eyre::private::format_err, vs::format_err)]
+#[kani::stub(alloc::fmt::format, vs::format)]
 #[kani::unwind(2)]
 fn c14_known_connectives_exact_3vl() {
     let p = pred();
@@ -145,26 +162,28 @@ fn c14_known_connectives_exact_3vl() {
     assert!(ok);
 }
 
-static ONE: Expr<'static> = Expr::Literal(Literal::Boolean(true));
-static ZERO: Expr<'static> = Expr::Literal(Literal::Boolean(false));
-static NOT_ONE: Expr<'static> = Expr::UnaryOp { op: U::Not, expr: &ONE };
-static NOT_ZERO: Expr<'static> = Expr::UnaryOp { op: U::Not, expr: &ZERO };
-static ONE_AND_ZERO: Expr<'static> = Expr::BinaryOp { left: &ONE, op: B::And, right: &ZERO };
-static ONE_OR_ZERO: Expr<'static> = Expr::BinaryOp { left: &ONE, op: B::Or, right: &ZERO };
-static ZERO_OR_ZERO: Expr<'static> = Expr::BinaryOp { left: &ZERO, op: B::Or, right: &ZERO };
-static ONE_AND_ONE: Expr<'static> = Expr::BinaryOp { left: &ONE, op: B::And, right: &ONE };
-
 //@ props=C14 kind=bounded bound="boolean-literal expression trees of depth <= 1 (AND/OR over TRUE/FALSE literals)"
 /// eval_expr (the row filter) on AND/OR trees over boolean literals returns the classical truth value
 #[kani::proof]
+#[kani::stub(eyre::capture_handler, vs::capture_handler)]
+#[kani::stub(eyre::private::new_adhoc, vs::new_adhoc)]
+#[kani::stub(eyre::private::format_err, vs::format_err)]
+#[kani::stub(alloc::fmt::format, vs::format)]
 #[kani::unwind(3)]
 fn c14_eval_expr_and_or_literals() {
     let cells: [Value<'static>; 1] = [Value::Null];
     let row = ExecutorRow::new(&cells);
+    let one = Expr::Literal(Literal::Boolean(true));
+    let zero = Expr::Literal(Literal::Boolean(false));
+    let (x, y): (bool, bool) = (kani::any(), kani::any());
+    let l = if x { &one } else { &zero };
+    let r = if y { &one } else { &zero };
+    let and = Expr::BinaryOp { left: l, op: B::And, right: r };
+    let or = Expr::BinaryOp { left: l, op: B::Or, right: r };
     let p = pred();
-    assert!(p.eval_expr(&ONE, &row) && !p.eval_expr(&ZERO, &row));
-    assert!(!p.eval_expr(&ONE_AND_ZERO, &row) && p.eval_expr(&ONE_OR_ZERO, &row));
-    assert!(!p.eval_expr(&ZERO_OR_ZERO, &row) && p.eval_expr(&ONE_AND_ONE, &row));
+    assert!(p.eval_expr(&one, &row) && !p.eval_expr(&zero, &row));
+    assert!(p.eval_expr(&and, &row) == (x && y));
+    assert!(p.eval_expr(&or, &row) == (x || y));
     core::mem::forget(p);
 }
 
@@ -172,15 +191,20 @@ fn c14_eval_expr_and_or_literals() {
 /// KNOWN FINDING F-C14-3: eval_expr(NOT TRUE) must be false (eval_expr has no arm for NOT and answers
 /// `true` for every expression kind it does not know)
 #[kani::proof]
+#[kani::stub(eyre::capture_handler, vs::capture_handler)]
+#[kani::stub(eyre::private::new_adhoc, vs::new_adhoc)]
+#[kani::stub(eyre::private::format_err, vs::format_err)]
+#[kani::stub(alloc::fmt::format, vs::format)]
 #[kani::unwind(3)]
 fn c14_known_eval_expr_not() {
     let cells: [Value<'static>; 1] = [Value::Null];
     let row = ExecutorRow::new(&cells);
+    let one = Expr::Literal(Literal::Boolean(true));
+    let not_one = Expr::UnaryOp { op: U::Not, expr: &one };
     let p = pred();
-    let a = p.eval_expr(&NOT_ONE, &row);
-    let b = p.eval_expr(&NOT_ZERO, &row);
+    let a = p.eval_expr(&not_one, &row);
     core::mem::forget(p);
-    assert!(!a && b);
+    assert!(!a);
 }
 
 // ------------------------------------------------------------------------------------------------
@@ -206,6 +230,10 @@ fn exact(a: i64, op: B, b: i64) -> Option<i128> {
 /// Int (+,-,*,/,%) Int: when the mathematical result fits in i64 the kernel returns exactly it; division
 /// and modulo by zero return NULL (None); NULL in => NULL out.  (Results that leave i64 are F-C20-1.)
 #[kani::proof]
+#[kani::stub(eyre::capture_handler, vs::capture_handler)]
+#[kani::stub(eyre::private::new_adhoc, vs::new_adhoc)]
+#[kani::stub(eyre::private::format_err, vs::format_err)]
+#[kani::stub(alloc::fmt::format, vs::format)]
 #[kani::unwind(2)]
 fn c20_int_arithmetic_exact_when_representable() {
     let p = pred();
@@ -231,6 +259,10 @@ fn c20_int_arithmetic_exact_when_representable() {
 /// a, b the kernel must return without an arithmetic-overflow panic (fails: i64::MAX + 1,
 /// i64::MIN / -1, i64::MIN % -1, 3037000500 * 3037000500)
 #[kani::proof]
+#[kani::stub(eyre::capture_handler, vs::capture_handler)]
+#[kani::stub(eyre::private::new_adhoc, vs::new_adhoc)]
+#[kani::stub(eyre::private::format_err, vs::format_err)]
+#[kani::stub(alloc::fmt::format, vs::format)]
 #[kani::unwind(2)]
 fn c20_known_int_overflow() {
     let p = pred();
@@ -247,6 +279,10 @@ fn c20_known_int_overflow() {
 /// shifts and unary minus: `a << b`, `a >> b` for 0 <= b < 64 are the machine shifts, any other shift
 /// amount yields NULL; unary minus is exact except for i64::MIN (part of F-C20-1)
 #[kani::proof]
+#[kani::stub(eyre::capture_handler, vs::capture_handler)]
+#[kani::stub(eyre::private::new_adhoc, vs::new_adhoc)]
+#[kani::stub(eyre::private::format_err, vs::format_err)]
+#[kani::stub(alloc::fmt::format, vs::format)]
 #[kani::unwind(2)]
 fn c20_shift_and_negate() {
     let p = pred();
@@ -267,6 +303,10 @@ fn c20_shift_and_negate() {
 //@ props=C14 kind=mustfail
 /// MUST FAIL (vacuity guard): "every comparison with a NULL operand is TRUE"
 #[kani::proof]
+#[kani::stub(eyre::capture_handler, vs::capture_handler)]
+#[kani::stub(eyre::private::new_adhoc, vs::new_adhoc)]
+#[kani::stub(eyre::private::format_err, vs::format_err)]
+#[kani::stub(alloc::fmt::format, vs::format)]
 #[kani::unwind(2)]
 fn c14_mustfail_null_cmp_true() {
     let p = pred();
